@@ -38,6 +38,20 @@ class LS(Enum):
     FOCUS = 3
 
 
+def _load_special_particles():
+    """
+    Check to see if new particles loaded; if not, load them.
+    """
+    getall = "all" if hasattr(Particle, "all") else "table"  # Support 0.4.4
+
+    if 998100 not in getattr(Particle, getall)():
+        data_dir = os.path.dirname(os.path.realpath(__file__))
+        special_filename = os.path.join(
+            data_dir, "..", "data", "MintDalitzSpecialParticles.csv"
+        )
+        Particle.load_table(special_filename, append=True)
+
+
 @attr.s(slots=True)
 class AmplitudeChain(ModelDecay):
     'This is a chain of decays (a "line")'
@@ -71,15 +85,7 @@ class AmplitudeChain(ModelDecay):
         :return: A new amplitude chain instance
         """
 
-        getall = "all" if hasattr(Particle, "all") else "table"  # Support 0.4.4
-
-        # Check to see if new particles loaded; if not, load them.
-        if 998100 not in getattr(Particle, getall)():
-            data_dir = os.path.dirname(os.path.realpath(__file__))
-            special_filename = os.path.join(
-                data_dir, "..", "data", "MintDalitzSpecialParticles.csv"
-            )
-            Particle.load_table(special_filename, append=True)
+        _load_special_particles()
 
         try:
             mat["particle"] = particle_from_string_name(mat["name"])
@@ -240,6 +246,9 @@ class AmplitudeChain(ModelDecay):
         # cart_decay_lines = get_from_parser(parsed, "cart_decay_line")
         variables = get_from_parser(parsed, "variable")
         constants = get_from_parser(parsed, "constant")
+
+        # The event type may name special particles, too
+        _load_special_particles()
 
         try:
             all_states = [particle_from_string_name(n) for n in event_type]
